@@ -88,7 +88,9 @@ def reconcileOne (r : Renames) (crate : Str) (d : ParsedData) : ParsedData :=
   { d with
     structs := sortBy (·.id.original) (d.structs.map fun s => { s with fields := s.fields.map (checkField crate r imports) }),
     enums := sortBy (·.id.original) (d.enums.map fun e => { e with variants := e.variants.map (checkVariant crate r imports) }),
-    aliases := sortBy (·.id.original) (d.aliases.map fun a => { a with ty := checkType crate r imports a.ty }) }
+    aliases := sortBy (·.id.original) (d.aliases.map fun a => { a with ty := checkType crate r imports a.ty }),
+    -- consts are sorted too since the `fix:` commit 7643332 (their types are not reconciled)
+    consts := sortBy (·.id.original) d.consts }
 
 /-- `reconcile_aliases` -/
 def reconcile (m : List (Str × ParsedData)) : List (Str × ParsedData) :=
